@@ -346,6 +346,22 @@ func cmdProp(args []string) {
 			seenK[l] = true
 		}
 	}
+	// the slowest obligations of this run (a query that needs seconds is the one that may time out under load)
+	type slowOb struct {
+		Name   string  `json:"obligation"`
+		TimeS  float64 `json:"time_s"`
+		Solver string  `json:"solver"`
+	}
+	var slow []slowOb
+	for _, ob := range all {
+		if !ob.Cover && ob.TimeS >= 1.0 {
+			slow = append(slow, slowOb{ob.Name, round3(ob.TimeS), ob.Solver})
+		}
+	}
+	sort.Slice(slow, func(i, j int) bool { return slow[i].TimeS > slow[j].TimeS })
+	if len(slow) > 8 {
+		slow = slow[:8]
+	}
 	var samples []interface{}
 	for i, n := range names {
 		if i%maxInt(1, len(names)/5) == 0 && len(samples) < 6 {
@@ -375,6 +391,7 @@ func cmdProp(args []string) {
 		"vacuity_probes":            nCover,
 		"vacuity_probes_sat":        nCoverOK,
 		"samples":                   samples,
+		"slowest_obligations":       slow,
 		"known_findings_reported":   len(seenK),
 		"failed_obligations":        failedNames,
 		"contract_files":            relFiles(e.cs.Files, *repo),
